@@ -85,6 +85,11 @@ func (h *webHarness) mw(i int, s godi.Scope, id string) error {
 	if h.exits[id] == "mw-error" && i == h.c.MwErrAt {
 		return errMw
 	}
+	if h.exits[id] == "scope-closed" && i == h.c.NMw-1 && s != nil {
+		// the request's scope is disposed before the handler resolves its controller (a middleware gives
+		// up on the request; the request context was cancelled; the provider is shutting down)
+		_ = s.Close()
+	}
 	return nil
 }
 
@@ -476,7 +481,16 @@ func (h *webHarness) oneRequest(router webRouter, exit string, reqNo int) []Find
 	} else if wantErrH && res.status != 500 {
 		bad("error-handler", fmt.Sprintf("default error handler should answer 500, got %d (events %s)", res.status, evs))
 	}
-	if h.c.CustomHands {
+	if exit == "scope-closed" {
+		// the controller cannot be resolved from a disposed scope: exactly ONE of the two handlers answers
+		if h.c.CustomHands {
+			if n := has("resolutionErrorHandler") + has("scopeErrorHandler"); n != 1 {
+				bad("handle-error-handlers", fmt.Sprintf("%d of the scope-error / resolution-error handlers ran, want exactly one (events %s)", n, evs))
+			}
+		} else if res.status != 500 {
+			bad("default-handle-handler", fmt.Sprintf("default handler should answer 500, got %d", res.status))
+		}
+	} else if h.c.CustomHands {
 		if has("resolutionErrorHandler") != b2i(exit == "unregistered") {
 			bad("resolution-error-handler", fmt.Sprintf("ran %d times (events %s)", has("resolutionErrorHandler"), evs))
 		}
@@ -628,7 +642,7 @@ func webRun(c webCase) (fs []Finding, summary string) {
 	return
 }
 
-var webExits = []string{"ok", "raw", "nested", "mw-error", "handler-error", "handler-panic", "scope-fail", "provider-closed", "unregistered", "no-middleware"}
+var webExits = []string{"ok", "raw", "nested", "mw-error", "handler-error", "handler-panic", "scope-fail", "provider-closed", "unregistered", "no-middleware", "scope-closed"}
 
 func webCases(integ string) []webCase {
 	var out []webCase
@@ -639,6 +653,9 @@ func webCases(integ string) []webCase {
 					for _, exit := range webExits {
 						if exit == "handler-error" && (integ == "http" || integ == "chi" || integ == "gin") {
 							continue // handlers of these integrations have no error result
+						}
+						if exit == "scope-closed" && nmw == 0 {
+							continue // it is the last configured middleware that closes the scope
 						}
 						if exit == "mw-error" {
 							for at := 0; at < nmw; at++ {
